@@ -77,7 +77,7 @@ class MolecularHamiltonian(AbstractOperator):
         # kinetic hopping term
         T = FieldOperatorTerm([IFODesc(self.field, IFOType.FERMI_CREATE),
                                IFODesc(self.field, IFOType.FERMI_ANNIHIL)],
-                               self.tkin)
+                               self.tkin.copy())  # the returned operator owns its coefficients
         # interaction term
         V = FieldOperatorTerm([IFODesc(self.field, IFOType.FERMI_CREATE),
                                IFODesc(self.field, IFOType.FERMI_CREATE),
